@@ -245,6 +245,34 @@ func c09(c *Ctx) {
 		}
 	}
 
+	c.R.Rule("R9.8", "P&T: connection details are extracted only from resources this reconcile applied: a failed apply that does not abort clears the slot the observe loop reads", 1,
+		"the applicator loads the existing object into cd before its guard refuses it: observing that slot publishes another owner's connection details in this XR's secret")
+	if _, ptc := c.composerMethods(); ptc != nil {
+		s := findComposerSites(ptc)
+		if len(s.creates) == 1 {
+			cr := s.creates[0]
+			loop := cfgx.LoopOf(cr.Block())
+			through := map[*ssa.BasicBlock]bool{}
+			for _, b := range ptc.Blocks {
+				for _, in := range b.Instrs {
+					if st, ok := in.(*ssa.Store); ok {
+						if ia, ok := st.Addr.(*ssa.IndexAddr); ok && strings.HasSuffix(ia.X.Type().String(), "[]"+tComposedIf) && cfgx.IsNilConst(st.Val) {
+							through[b] = true
+						}
+					}
+				}
+			}
+			if loop == nil || len(failEdges(cr)) == 0 {
+				c.R.Unknown(load.FuncName(ptc)+": apply loop", c.pos(cr.Pos()), "the apply of composed resources is not in a loop or its error is not tested")
+			} else {
+				r, w := cfgx.ReachesAvoidingBlocks(failEdges(cr), cfgx.LoopHeader(loop), through, nil, c.posf())
+				c.R.Check(!r, load.FuncName(ptc)+": failed apply clears cds[i]", c.pos(cr.Pos()), "after a failed apply the loop continues only past cds[i] = nil", "a failed apply can continue to the next resource with cds[i] still set: the observe loop then extracts connection details from an object this XR did not apply", w...)
+			}
+		} else {
+			c.R.Unknown(load.FuncName(ptc)+": apply site", c.pos(ptc.Pos()), "expected one create-capable write")
+		}
+	}
+
 	c.R.Rule("R9.6", "claim secret: exact copy of the bound XR's secret, only if that secret is controlled by the XR", 7, "a claim could read a secret its XR does not own, or get altered data")
 	if pc := c.method(pkgClaim, "APIConnectionPropagator", "PropagateConnection"); pc != nil {
 		ap := calls(pc, applicatorApply)
